@@ -141,6 +141,35 @@ theorem run_connsOK (crc : Bytes → Nat) :
   | nil => intro s hs; exact hs
   | cons a rest ih => intro s hs; exact ih _ (step_connsOK crc hs a)
 
+/-- **C19 (6b) slot accounting** After every schedule and fault sequence (no hypothesis at all): the
+    connection lists are duplicate free, never contain the peer itself and respect the limit, and
+    every connection entry points to a peer that exists and has not left — a connection that ended
+    (its peer left, either end dropped it) does not occupy a slot.  This is what makes the slots of
+    `progress_always_possible` real; the real scheduler's `connClosedEvent` / `DeleteActive` is tied to it
+    by the controlled-scheduler machine `cslot` (monitor `closed-conn-keeps-slot`). -/
+theorem conns_are_live (crc : Bytes → Nat) (cfg : Cfg) (mi : MetaInfo) (blob : Bytes) (seeders : List Bool) (agents : Nat)
+    (sched : List Swarm.Action) :
+    ConnsOK (Swarm.run crc (initSwarm cfg mi blob seeders agents) sched) ∧
+    ConnsLive (Swarm.run crc (initSwarm cfg mi blob seeders agents) sched) := by
+  have key : ∀ (sched : List Swarm.Action) (s : Swarm), ConnsOK s → ConnsLive s →
+      ConnsOK (sched.foldl (Swarm.step crc) s) ∧ ConnsLive (sched.foldl (Swarm.step crc) s) := by
+    intro sched
+    induction sched with
+    | nil => intro s h1 h2; exact ⟨h1, h2⟩
+    | cons a rest ih => intro s h1 h2; exact ih _ (step_connsOK crc h1 a) (step_live_conns crc h1 h2 a)
+  exact key sched _ (init_connsOK cfg mi blob seeders agents) (init_live_conns cfg mi blob seeders agents)
+
+/-- **C19 (6c)** A departing peer frees every slot it held: afterwards nobody lists it as a connection,
+    it lists none itself, and no other peer's connection list grew. -/
+theorem departure_frees_slots (crc : Bytes → Nat) (cfg : Cfg) (mi : MetaInfo) (blob : Bytes) (seeders : List Bool) (agents : Nat)
+    (sched : List Swarm.Action) (b : Nat) (pb : Peer)
+    (hb : (Swarm.run crc (initSwarm cfg mi blob seeders agents) sched).peers[b]? = some pb) (a : Nat) (pa' : Peer)
+    (ha' : (Swarm.step crc (Swarm.run crc (initSwarm cfg mi blob seeders agents) sched) (.leave b)).peers[a]? = some pa') :
+    b ∉ pa'.conns ∧ (a = b → pa'.conns = [] ∧ pa'.present = false) ∧
+    (∀ pa, (Swarm.run crc (initSwarm cfg mi blob seeders agents) sched).peers[a]? = some pa →
+      pa'.conns.length ≤ pa.conns.length) :=
+  leave_frees_slots crc (conns_are_live crc cfg mi blob seeders agents sched).1 b pb hb a pa' ha'
+
 section
 variable (crc : Bytes → Nat) (pl : Nat) (blob : Bytes) (hpl : 0 < pl) (cfg : Cfg) (seeders : List Bool)
   (agents : Nat) (sched : List Swarm.Action) (hsep : SepSched crc pl blob sched)
@@ -182,6 +211,7 @@ theorem progress_always_possible (a b i : Nat) (pa pb : Peer)
       case connect x y => cases s.peers[x]? <;> cases s.peers[y]? <;> simp only <;> (try split) <;> rfl
       case disconnect x y => rw [dropEnd_cfg, dropEnd_cfg]
       case unblacklist x y => cases s.peers[x]? <;> rfl
+      case dialfail x y => cases s.peers[x]? <;> rfl
       case expire x y j => cases s.peers[x]? <;> simp only <;> (try split) <;> rfl
       case resend x f y j => cases s.peers[x]? <;> cases s.peers[y]? <;> simp only <;> (try split) <;> rfl
       case reqfail x y j => cases s.peers[x]? <;> rfl
